@@ -259,6 +259,7 @@ func c20Run(tier string, idx int, r *Result) {
 	}
 	variants := 0
 	res := vsched.Explore(cfg, run, func(choices []int, c *vsched.Chooser) bool {
+		r.Beat()
 		cas := fmt.Sprintf("%s// fuzzer input %s, %d pass(es), non-default draws (point:alphabet index): %s", in.text, in.name, passes, fmtChoices(choices))
 		if panicMsg != "" {
 			key := "panic:" + normMsg(panicMsg)
